@@ -7,6 +7,7 @@ from ..evaluator import analyse
 from ..procmodel import (split_models, make_config, permeance_summary, process_functions, evaluate, PM, param_of_type, is_non_ideal)
 from ..symeval import val_key
 from ..values import *
+from ..symeval import called_from
 from ..repo import AnalysisError, FuncInfo, ClassInfo, parse_type
 from .c01 import comp_p, comp_type, num
 from .c05 import curve_configs, INL as FIT_INL, fit_summary
@@ -75,7 +76,7 @@ def check_calls(ck, repo, func, outs, label):
     n = 0
     for o in outs:
         for c in o.calls:
-            if not isinstance(c.callee, FuncInfo) or c.caller is None or c.caller.func is not func:
+            if not isinstance(c.callee, FuncInfo) or c.caller is None or not called_from(c, func):
                 continue
             callee = c.callee
             # F2 binding sanity on every resolved repository call
@@ -233,7 +234,7 @@ def check_step(ck, pm: PM):
     c = calls[0]
     J = pm.series("partial_fluxes")
     ck.ob("F6", fq, "the reported fluxes of step k are the result of that step's flux calculation", c.where,
-          J is not None and len(J.per_iter) == 1 and J.per_iter[0] is c.result, found=repr(J.per_iter[0])[:200] if J is not None and J.per_iter else None)
+          J is not None and len(J.per_iter) == 1 and (J.per_iter[0] is c.result or poly.key_equiv(val_key(J.per_iter[0]), val_key(c.result))), found=repr(J.per_iter[0])[:200] if J is not None and J.per_iter else None)
     Tk = pm.elem_k("feed_temperature")
     ft = c.bound.get("feed_temperature")
     ck.ob("F6", fq, "flux call of step k uses the reported feed temperature of step k", c.where,
